@@ -442,7 +442,7 @@ def independence_case(ctx, rng, idx):
             if wrapper == 'reduced':
                 model = chi.ReducedPopulationModel(model)
             top = GP.leaf_top(rng, leaf, 1, strong_cov=True)
-            n_g = min(n, 1000)
+            n_g = min(n, 1000) if kd != 'T' else min(n, 4000)
             groups = int(rng.integers(2, 4))
             cov = (np.arange(n_g) % groups).astype(float)[:, None]
             seed_arg = [seed, np.int64(seed)][idx // 7 % 2]
@@ -453,7 +453,7 @@ def independence_case(ctx, rng, idx):
             z = (np.log(psi) - mu) / sd if kd == 'L' else (psi - mu) / sd
             feats.update(kind_of_model=kd, wrapper=wrapper, groups=groups)
             ctx.count('stream_independence_tests')
-            if len(np.unique(np.round(z, 9))) < n_g and kd != 'T':
+            if len(np.unique(np.round(z, 9))) < n_g:
                 ctx.violation('streams_are_independent',
                               'identical_noise_across_covariate_groups',
                               {'distinct': int(len(np.unique(
